@@ -18,8 +18,8 @@ Definition mkview (cn cd : bytes) (ck : N) (cu csn csv csu mn md mu : bytes) (a 
   {| vc_name := cn; vc_desc := cd; vc_kind := if ck =? 0 then None else Some (ik ck); vc_unit := cu;
      vc_sname := csn; vc_sver := csv; vc_surl := csu;
      vm_name := mn; vm_desc := md; vm_unit := mu; vm_agg := ag a; vm_filter := f |}.
-Definition mkinst (n d u : bytes) (k : N) (f : bool) (sn sv su : bytes) : inst :=
-  {| i_name := n; i_desc := d; i_unit := u; i_kind := ik k; i_float := f;
+Definition mkinst (n d u : bytes) (k : N) (f : bool) (sn sv su : bytes) (rsel : N) : inst :=
+  {| i_name := n; i_desc := d; i_unit := u; i_kind := ik k; i_float := f; i_rsel := ag rsel;
      i_sname := sn; i_sver := sv; i_surl := su |}.
 
 (** History events refer to a pool of attribute sets by index. *)
